@@ -8,6 +8,7 @@ package PKGNAME
 import (
 	"bytes"
 	"fmt"
+	"os"
 )
 
 type vIn struct {
@@ -30,6 +31,7 @@ type vState struct {
 	tier     string
 	failures []string
 	region   string
+	tempDirs []string
 }
 
 // vRegion: until cleared with "", every assertion is reported under this label.
@@ -147,6 +149,16 @@ func vCover(label string) {
 func vStop() { panic(vAbort{"stop"}) }
 
 func vNative() bool { return true }
+
+// vTempDir returns a fresh scratch directory natively (removed when the case ends) and "" in the executor.
+func vTempDir() string {
+	d, err := os.MkdirTemp("", "verif-case-")
+	if err != nil {
+		panic(vAbort{"tempdir: " + err.Error()})
+	}
+	vS.tempDirs = append(vS.tempDirs, d)
+	return d
+}
 
 func vKnown(id string) bool { return vS.known[id] }
 
